@@ -688,7 +688,7 @@ def normalise_modules(j):
 FORWARD_ALSO = ['<mutex::RawMutexLock as lock_api::RawMutex>::try_lock', '<mutex::RawMutexLock as lock_api::RawMutex>::unlock']
 
 
-def forwarder_target(b, bodies):
+def forwarder_target(b, bodies, allow_neg=False):
     """if body b does nothing but `return helper(args in order)` for a private crate-local helper, that helper's key"""
     calls = []
     for blk in b['blocks']:
@@ -739,8 +739,9 @@ def forwarder_target(b, bodies):
             return None
     if t['dest']['p']:
         return None
+    negated = False
     if t['dest']['l'] != 0:
-        # the result must flow into the return place unchanged
+        # the result must flow into the return place unchanged (or negated, when `allow_neg`)
         moved = False
         for blk in b['blocks']:
             for s in blk['stmts']:
@@ -748,10 +749,16 @@ def forwarder_target(b, bodies):
                     rv = s['rv']
                     if rv['k'] == 'use' and rv['o'].get('k') in ('copy', 'move') and not rv['o']['p']['p'] and rv['o']['p']['l'] == t['dest']['l']:
                         moved = True
+                    elif allow_neg and rv['k'] == 'un' and rv.get('op') == 'Not' and rv['a'].get('k') in ('copy', 'move') and not rv['a']['p']['p'] \
+                            and rv['a']['p']['l'] == t['dest']['l']:
+                        moved = True
+                        negated = True
                     else:
                         return None
         if not moved:
             return None
+    if allow_neg:
+        return (fn['path'], negated)
     return fn['path']
 
 
@@ -761,37 +768,71 @@ def collapse_forwarders(j):
     the canonical function.  Nothing else changes."""
     bodies = {b['key']: b for b in j['bodies']}
     done = {}
+    negs = {}
     for key in list(CANONICAL) + FORWARD_ALSO:
         b = bodies.get(key)
         if b is None:
             continue
-        hk = forwarder_target(b, bodies)
-        if hk is None or hk in done:
+        ft = forwarder_target(b, bodies, allow_neg=True)
+        if ft is None or ft[0] in done:
             continue
+        hk, neg = ft
         h = bodies[hk]
         keep = {k: b.get(k) for k in ('key', 'name', 'vis', 'impl_trait', 'impl_self', 'def_kind', 'sig')}
         b.clear()
         b.update(h)
         b.update(keep)
         b['actual_key'] = hk
+        if neg:
+            # `fn try_lock(&self) -> bool { !self.test_and_set() }`: the helper with its result negated IS try_lock
+            for blk in list(b['blocks']):
+                for s in blk['stmts']:
+                    if s['k'] == 'assign' and not s['lhs']['p'] and s['lhs']['l'] == 0:
+                        tmp = len(b['locals'])
+                        b['locals'].append({'ty': 'bool', 'name': None})
+                        s['lhs'] = {'l': tmp, 'p': [], 'ty': 'bool'}
+                        blk['stmts'].insert(blk['stmts'].index(s) + 1, {'k': 'assign', 'lhs': {'l': 0, 'p': [], 'ty': 'bool'},
+                                                                       'rv': {'k': 'un', 'op': 'Not', 'a': {'k': 'move', 'p': {'l': tmp, 'p': [], 'ty': 'bool'}}}, 'at': s.get('at'), 'exp': False})
+                        break
+                # calls whose destination is the return place directly
+                t_ = blk['term']
+                if t_['k'] == 'call' and not t_['dest']['p'] and t_['dest']['l'] == 0 and t_.get('target') is not None:
+                    tmp = len(b['locals'])
+                    b['locals'].append({'ty': 'bool', 'name': None})
+                    t_['dest'] = {'l': tmp, 'p': [], 'ty': 'bool'}
+                    nb = {'cleanup': False, 'stmts': [{'k': 'assign', 'lhs': {'l': 0, 'p': [], 'ty': 'bool'},
+                                                        'rv': {'k': 'un', 'op': 'Not', 'a': {'k': 'move', 'p': {'l': tmp, 'p': [], 'ty': 'bool'}}}, 'at': t_.get('at'), 'exp': False}],
+                          'term': {'k': 'goto', 'target': t_['target'], 'at': t_.get('at')}}
+                    t_['target'] = len(b['blocks'])
+                    b['blocks'].append(nb)
+            negs[hk] = key
         done[hk] = key
     if not done:
         return {}
     j['bodies'] = [b for b in j['bodies'] if b['key'] not in done]
     for b in j['bodies']:
         for body in [b] + list(b.get('promoted') or []):
-            for blk in body['blocks']:
+            pending = []
+            for blk in list(body['blocks']):
                 t = blk['term']
                 if t['k'] == 'call' and t.get('fn') and t['fn'].get('path') in done:
                     ck = done[t['fn']['path']]
                     cb = bodies[ck]
                     nm = cb.get('name') or ck.split('::')[-1]
+                    if t['fn']['path'] in negs and t.get('target') is not None and not t['dest']['p']:
+                        d_ = t['dest']
+                        nb = {'cleanup': blk.get('cleanup', False),
+                              'stmts': [{'k': 'assign', 'lhs': d_, 'rv': {'k': 'un', 'op': 'Not', 'a': {'k': 'copy', 'p': d_}}, 'at': t.get('at'), 'exp': False}],
+                              'term': {'k': 'goto', 'target': t['target'], 'at': t.get('at')}}
+                        t['target'] = len(body['blocks']) + len(pending)
+                        pending.append(nb)
                     if cb.get('impl_trait'):
                         # the form every direct caller of a trait method has
                         t['fn'] = dict(t['fn'], path='%s::%s' % (cb['impl_trait'], nm), full=ck, name=nm, local=False, trait=cb['impl_trait'],
                                        resolved=ck, resolved_local=True)
                     else:
                         t['fn'] = dict(t['fn'], path=ck, full=ck, name=nm)
+            body['blocks'].extend(pending)
     return done
 
 
@@ -857,7 +898,45 @@ def resolve(j):
                 progress = True
     if aliases:
         rename(j, aliases)
+        try:
+            fix_negated(j)
+        except Exception:
+            pass
     return aliases
+
+
+NEGATABLE = ('signal::Signal::<T>::will_wake',)
+
+
+def fix_negated(j):
+    """a boolean helper renamed together with its polarity (`will_wake` -> `waker_changed`, returning the negation): the body
+    keeps the canonical name without the final `!`, and every call site gets the `!` instead - same program"""
+    out = []
+    for b in j['bodies']:
+        if b['key'] not in NEGATABLE or not b.get('actual_key'):
+            continue
+        rets = [(blk, i, s) for blk in b['blocks'] for i, s in enumerate(blk['stmts'])
+                if s['k'] == 'assign' and not s['lhs']['p'] and s['lhs']['l'] == 0]
+        if not rets or not all(s['rv']['k'] == 'un' and s['rv'].get('op') == 'Not' for _, _, s in rets):
+            continue
+        for blk, i, s in rets:
+            s['rv'] = {'k': 'use', 'o': s['rv']['a']}
+        key = b['key']
+        for c in j['bodies']:
+            for body in [c] + list(c.get('promoted') or []):
+                nblocks = []
+                for blk in body['blocks']:
+                    t_ = blk['term']
+                    if t_['k'] == 'call' and t_.get('fn') and t_['fn'].get('path') == key and t_.get('target') is not None and not t_['dest']['p']:
+                        d = t_['dest']
+                        nb = {'cleanup': blk.get('cleanup', False),
+                              'stmts': [{'k': 'assign', 'lhs': d, 'rv': {'k': 'un', 'op': 'Not', 'a': {'k': 'copy', 'p': d}}, 'at': t_.get('at'), 'exp': False}],
+                              'term': {'k': 'goto', 'target': t_['target'], 'at': t_.get('at')}}
+                        t_['target'] = len(body['blocks']) + len(nblocks)
+                        nblocks.append(nb)
+                body['blocks'].extend(nblocks)
+        out.append(key)
+    return out
 
 
 def rename(j, aliases):
